@@ -204,6 +204,17 @@ func genP06(g *Gen, p *Program) {
 			for i := 0; i < n; i++ {
 				k := []string{"TextRT", "String", "MarshalText", "Scribble", "FormatFn", "AppendM"}[g.R.Pick([]int{6, 2, 2, 1, 1, 1})]
 				op := g.fill(k, p)
+				if k == "TextRT" && g.R.P(1, 4) {
+					// the positional form prints every digit: long numerals the
+					// other forms never produce
+					op.I[0] = 6 // Format(f,-1)
+					if g.R.P(1, 2) {
+						// values with a long integer part and a fraction
+						c := g.coef()
+						n := ref.Num{Neg: g.R.P(1, 3), Coef: c, Exp: -g.R.Range(1, 14)}
+						op.D[0] = Hex(DecOf(n))
+					}
+				}
 				switch k {
 				case "FormatFn":
 					op.I[1] = -1
